@@ -70,6 +70,7 @@ class RefCounterRetain(_Base):
         I.st = State()
         I.st.ghost['scheduled'] = VInt(0)
         I.st.ghost['scheduled_cb'] = NONE
+        I.st.ghost['ran_inline'] = VInt(0)
         count, n = z3.Int('count0'), z3.Int('n')
         selfv = I.st.new_obj('RefCounter', {'count': VInt(count), 'cb': VElem(z3.Const('cb', sym.Elem)),
                                             'loop': VRef(z3.Const('rcloop', sym.Obj), 'IOLoop')})
@@ -83,6 +84,18 @@ class RefCounterRetain(_Base):
             return NONE
         return {'IOLoop.add_callback': add_callback}
 
+    def spec_funcs(self):
+        d = _Base.spec_funcs(self)
+
+        def call_default(I, kind, name, recv, args, kwargs):
+            if kind == 'apply':
+                # the completion callback (an arbitrary user function) called directly
+                I.st.ghost['ran_inline'] = VInt(I.st.ghost['ran_inline'].t + 1)
+                return VElem(z3.Const(sym.fresh_name('cb_result'), sym.Elem))
+            raise Unsupported('call of %s %s in RefCounter' % (kind, name))
+        d['call_default'] = call_default
+        return d
+
     def clauses(self):
         return [Clause('count_increases_by_n', ['C04', 'C05'], text='self.count == old(self.count) + n'),
                 Clause('retain_never_schedules_callback', ['C04'], text='scheduled == 0')]
@@ -90,14 +103,21 @@ class RefCounterRetain(_Base):
 
 class RefCounterRelease(RefCounterRetain):
     qual = 'RefCounter.release'
+    # every node contract models `_release_refs` as a pure count update: that the completion callback is *posted* to the loop and
+    # never run inside the release (where it could re-enter the node that is releasing) is what makes that model right
+    props = ['C01', 'C02', 'C04', 'C05', 'C08', 'C09', 'C10', 'C13', 'C14', 'C16', 'C20']
 
     def clauses(self):
         return [Clause('count_decreases_by_n', ['C04', 'C05'], text='self.count == old(self.count) - n'),
-                Clause('callback_scheduled_iff_count_reaches_zero', ['C04', 'C05'],
+                Clause('callback_scheduled_iff_count_reaches_zero', list(self.props),
                        text='scheduled == (1 if (self.count <= 0 and truthy(self.cb)) else 0)',
                        note='B4: add_callback(cb) exactly once when the count is <= 0 after the release, never while it is positive'),
                 Clause('schedules_the_counters_own_callback', ['C04'],
-                       text='implies(scheduled == 1, scheduled_cb == self.cb)')]
+                       text='implies(scheduled == 1, scheduled_cb == self.cb)'),
+                Clause('callback_is_posted_to_the_loop_never_run_inside_the_release', list(self.props), when='any',
+                       text='ran_inline == 0',
+                       note='a callback run synchronously would execute user code (which may emit) in the middle of the releasing '
+                            "node's update, between two of its state changes")]
 
 
 # --------------------------------------------------------------------------- _retain_refs / _release_refs
@@ -159,7 +179,8 @@ class EmitBody(_Base):
     name = 'Stream._emit[metadata=list]'
     # the fan-out is on the path of every element of every pipeline: each property about what is delivered, when and with which
     # references depends on it
-    props = ['C01', 'C02', 'C03', 'C04', 'C05', 'C08', 'C09', 'C10', 'C13', 'C14', 'C15', 'C16', 'C17', 'C18', 'C20']
+    props = ['C01', 'C02', 'C03', 'C04', 'C05', 'C06', 'C07', 'C08', 'C09', 'C10', 'C11', 'C12', 'C13', 'C14', 'C15', 'C16', 'C17',
+             'C18', 'C20']
     md_none = False
     assumptions = ('OrderedWeakrefSet: len() and iteration agree and iterate live members in first-insertion order '
                    '(trusted; no garbage collection between len() and list())',
@@ -286,6 +307,11 @@ class EmitBody(_Base):
             Clause('C01.every_downstream_once_in_attachment_order', ['C01', 'C15'], text='calls == D'),
             Clause('C03.returns_flat_list_of_all_awaitables', ['C03'], text='list(result) == nonnull_of(flat_aw(rets))'),
             Clause('C05.own_holds_net_to_zero', ['C05', 'C04'], text='count_r == old(count_r) + child_eff'),
+            Clause('C12.a_node_without_consumers_still_remembers_the_element_it_emitted', ['C01', 'C12'],
+                   text='implies(len(D) == 0, self.current_value == x)',
+                   note='`current_value` is how the last result of a leaf node (an aggregation handle nobody has subscribed to) is '
+                        'polled; with consumers the obligation before the first downstream call says the same (afterwards a '
+                        're-entrant emission may legitimately have replaced it)'),
             Clause('C16.failed_downstream_is_never_released', ['C16', 'C04'], when='raise:DownstreamError',
                    text='count_r - child_eff - old(count_r) >= occ(md_in) and len(calls) <= len(D)',
                    note='the hold taken for the failing downstream (and for every later one) stays: the count cannot reach zero'),
